@@ -105,6 +105,50 @@ def run(tier, seed):
             v.violation(f"same history gives different summary text depending on cache state / restart: {sha}",
                         {"engine": "hist", "cases": [h for h in hist if h["id"].startswith(f"d{i}")]})
 
+    # ---- cut points / status / repeated auto do not depend on the state of the compaction caches: after everything has been
+    #      checkpointed, an unreadable or missing cache file (and a restart) must give the same answers and a repeated auto
+    #      must still append nothing (faults that leave a readable but stale file are C04's recorded findings and are not used)
+    fhist = []
+    faults = [(f, k) for f in ("comp", "compidx", "mrord", "mr", "full") for k in ("garbage", "truncate", "delete")]
+    if not thorough:
+        faults = [x for i, x in enumerate(faults) if (i + seed) % 2 == 0] + [("comp", "garbage"), ("comp", "truncate")]
+        faults = sorted(set(faults))
+    fb = 0
+    for b in bases[1:]:
+        for stride in (1, 2):
+            done = b + [{"op": "auto", "t": 0, "stride": stride, "max_new": 33}, {"op": "auto", "t": 0, "stride": stride, "max_new": 33}]
+            probe = [{"op": "cut_points", "t": 0, "stride": stride, "limit": 50}, {"op": "status", "t": 0, "stride": stride},
+                     {"op": "auto", "t": 0, "stride": stride, "max_new": 33}, {"op": "schedule", "t": 0, "stride": stride, "max_new": 2, "execute": True, "block_on_inflight": True},
+                     {"op": "cut_points", "t": 0, "stride": stride, "limit": 50}]
+            fhist.append({"id": f"f{fb}-ref", "ops": done + [{"op": "restart"}] + probe})
+            for (file, kind) in faults:
+                fhist.append({"id": f"f{fb}-{file}-{kind}", "ops": done + [{"op": "fault", "t": 0, "file": file, "kind": kind}, {"op": "restart"}] + probe,
+                              "_ref": f"f{fb}-ref", "_fault": (file, kind)})
+            fb += 1
+    fres = {r["id"]: r for r in run_harness("hist", [{k: h[k] for k in h if not k.startswith("_")} for h in fhist], wd, "cfault", shards=8, timeout=900)}
+
+    def answers(r):
+        out = []
+        for x in r["results"][-5:]:
+            ret = x.get("ret")
+            if isinstance(ret, dict):
+                ret = {k: ret[k] for k in ret if k not in ("job_id", "decision_id", "inflight_job_id")}
+            out.append((x.get("ok"), json.dumps(ret, sort_keys=True)))
+        return out
+    for h in fhist:
+        if "_ref" not in h:
+            continue
+        r, ref = fres[h["id"]], fres[h["_ref"]]
+        v.add_eval({"cache_fault": h["id"]}, True)
+        added = [x.get("log", {}).get("added") for x in r["results"][-5:]]
+        if answers(r) != answers(ref):
+            k = next(i for i, (a_, b_) in enumerate(zip(answers(r), answers(ref))) if a_ != b_)
+            v.violation(f"after {h['_fault'][1]} of the {h['_fault'][0]} cache file and a restart, {h['ops'][-5 + k]['op']} answers {answers(r)[k][1][:200]} "
+                        f"instead of {answers(ref)[k][1][:200]}", {"engine": "hist", "case": {k_: h[k_] for k_ in h if not k_.startswith('_')}})
+        elif any(a_ not in (0, None) for a_ in added):
+            v.violation(f"after {h['_fault'][1]} of the {h['_fault'][0]} cache file, a repeated auto / schedule with nothing new appended frames {added}",
+                        {"engine": "hist", "case": {k_: h[k_] for k_ in h if not k_.startswith('_')}})
+
     # ---- concurrent auto / schedule calls, alternated at every append by the gate scheduler
     setup = [{"op": "ensure_default"}] + [{"op": "message", "t": 0}] * 4
     pairs = [({"op": "auto", "t": 0, "stride": 2, "max_new": 2}, {"op": "auto", "t": 0, "stride": 2, "max_new": 2}),
